@@ -94,8 +94,10 @@ def main():
         rep.errors.append(f"checker crash: {type(e).__name__}: {e}\n{traceback.format_exc()[-1500:]}")
     if a.update_ledger:
         for k, v in rep.obligations.items():
-            ledger[k] = {"verdict": v["verdict"], "ms": v["ms"]}
-        json.dump(ledger, open(os.path.join(driver.VERIF, "ledger.json"), "w"), indent=0, sort_keys=True)
+            ledger[k] = {"verdict": v["verdict"], "ms": v["ms"], "stages": sorted(x for x in v.get("stages", ()) if x)}
+        with open(os.path.join(driver.VERIF, "ledger.json.tmp"), "w") as f_:
+            json.dump(ledger, f_, indent=0, sort_keys=True)
+        os.replace(os.path.join(driver.VERIF, "ledger.json.tmp"), os.path.join(driver.VERIF, "ledger.json"))
     code = driver.finish(rep, level=cfg.get("level", "proof"), technique=cfg.get("technique", ""))
     sys.exit(code)
 
